@@ -6,7 +6,7 @@ REGEN = dict(_C06_REGEN)
 PROP = dict(
     level='proof',
     regen=['consts'],
-    theorems=[],
+    theorems=['Fit.C10.C10_validate_iff_spec', 'Fit.C10.C10_validate_filter', 'Fit.C10.C10_post', 'Fit.C10.C10_post_v1', 'Fit.C10.C10_def_sizes_are_bytes', 'Fit.C10.C10_reject', 'Fit.C10.C10_reject_batch', 'Fit.C10.C10_gate_no_panic_partial', 'Fit.C10.C10_gate_no_panic_full_fails', 'Fit.C10.C10_accept_batch', 'Fit.C10.C10_idempotent_partial', 'Fit.C10.C10_idempotent_full_fails_rescale', 'Fit.C10.C10_idempotent_full_fails_empty'],
     families=[dict(name='validate', prop=True), dict(name='proto-validate', prop=True)],
     trusted_base=STD_TRUST + [
         "scaleoffset.DiscardValue on float64-typed values (binary64 arithmetic + conversion, C12) is a parameter of the model; the driver instantiates it with the results of the real function carried in each operation line (dv: table)",
